@@ -122,5 +122,8 @@ class RawLinkLayer(LinkLayer):
                         self.receive_callback(m[14:])
                 except NotImplementedError as e:
                     print("Error decoding packet: " + str(e))
+                except Exception as e:  # pylint: disable=broad-except
+                    # A malformed or unexpected frame must never stop the receive loop.
+                    print("Error processing packet, discarding: " + repr(e))
             except OSError:
                 break
